@@ -51,6 +51,7 @@ class M(HasTraits):
     si = Set(Int)
     child = Instance(Child)
     kids = List(Instance(Child))
+    dc = Dict(Str, Instance(Child))          # values may be THE SAME objects as child / kids[i] (aliasing inside the graph)
     tmp = Int(5, transient=True)
     ro = ReadOnly
     ref_list = List(Int, copy="ref")
@@ -101,6 +102,8 @@ OP = st.one_of(
     st.tuples(st.just("sh"), st.lists(st.lists(I5, max_size=2), max_size=2)), st.tuples(st.just("llapp"), I5),
     st.tuples(st.just("palette"), st.sampled_from(["black", "blue"])), st.tuples(st.just("shade"), st.sampled_from(["red", "green"])),
     st.tuples(st.just("w"), st.integers(1, 9)), st.tuples(st.just("wz"), st.integers(1, 9)),
+    st.tuples(st.just("dc"), st.sampled_from("ab"), st.sampled_from(["child", "kid", "fresh"])),
+    st.tuples(st.just("dc"), st.sampled_from("ab"), st.sampled_from(["child", "kid", "fresh"])),
 ).map(list)
 MODES = ["p0", "p1", "p2", "p3", "p4", "p5", "deepcopy", "clone_deep", "clone_none", "clone_shallow", "copy_traits"]
 
@@ -196,6 +199,14 @@ def objects_run(case, ctx):
         elif k in ("w", "wz"):
             setattr(o, k, op[1])
             interesting = True
+        elif k == "dc":
+            if op[2] == "child" and o.child is not None:
+                o.dc[op[1]] = o.child
+            elif op[2] == "kid" and o.kids:
+                o.dc[op[1]] = o.kids[-1]
+            else:
+                o.dc[op[1]] = Child(value=7)
+            interesting = True
         elif k == "palette":
             o.z_palette = Palette(shade=op[1])
         elif k == "shade":
@@ -224,11 +235,24 @@ def objects_run(case, ctx):
     c._tag = "copy"
     if type(c) is not M:
         ctx.fail("copy/class", "%s gives a %s" % (mode, type(c).__name__))
+    # ---- aliasing inside the graph survives a deep copy (one object reachable twice stays ONE object)
+    # (copy.deepcopy() honours the per-trait `copy` metadata; Dict has none, which is documented to mean "copy the
+    #  reference": its value objects are then the original's own, so only pickle and clone_traits(copy="deep") are judged)
+    if mode.startswith("p") or mode == "clone_deep":
+        for key, val in o.dc.items():
+            where_o = ("child" if val is o.child else None, [i for i, x in enumerate(o.kids) if x is val])
+            cv = c.dc.get(key)
+            where_c = ("child" if cv is not None and cv is c.child else None, [i for i, x in enumerate(c.kids) if x is cv])
+            if where_o != where_c:
+                ctx.fail("state/aliasing", "%s: dc[%r] is the same object as %r in the original but as %r in the image"
+                         % (mode, key, where_o, where_c))
+            if where_o != (None, []):
+                ctx.label("aliased-dict-value")
     for pn in ("both_d", "both_o"):
         if getattr(c, pn) != c.w * 100 + c.wz or getattr(c, pn) != getattr(o, pn):
             ctx.fail("live/property-dependency", "%s: cached property %s of the image reads %r; w=%r wz=%r (original reads %r)"
                      % (mode, pn, getattr(c, pn), c.w, c.wz, getattr(o, pn)))
-    names = ["li", "ll", "lll", "dl", "si", "kids", "ref_list", "sh_list", "child", "ro", "z_palette", "w", "wz"]
+    names = ["li", "ll", "lll", "dl", "si", "kids", "ref_list", "sh_list", "child", "ro", "z_palette", "w", "wz", "dc"]
     for n in names:
         if plain(getattr(c, n)) != plain(getattr(o, n)):
             ctx.fail("state/value", "%s: %s is %r, original %r" % (mode, n, plain(getattr(c, n)), plain(getattr(o, n))))
@@ -248,6 +272,9 @@ def objects_run(case, ctx):
     if mode in ("clone_none", "clone_shallow", "copy_traits"):
         for ch in ([o.child] if o.child is not None else []) + list(o.kids):
             allowed_shared.add(id(ch.xs))
+    if mode in ("clone_none", "clone_shallow", "copy_traits", "deepcopy"):
+        for ch in o.dc.values():
+            allowed_shared.add(id(ch.xs))         # Dict values are copied by reference unless a deep copy is asked for
         if mode in ("clone_shallow",) or True:
             for inner in o.sh_list:
                 allowed_shared.add(id(inner))
